@@ -168,7 +168,7 @@ func (e *evalEnv) eval(x ast.Expr) tv {
 			return tv{term: fmt.Sprintf("(- %s)", v.term), typ: v.typ}
 		case token.AND:
 			v := e.eval(x.X)
-			if !v.isAddr {
+			if !v.isAddr && (v.ref == "" || v.off == "") {
 				e.fail(x, "cannot take address of %s", exprString(x.X))
 			}
 			return tv{term: fmt.Sprintf("(mkPtr %s %s)", v.ref, v.off), typ: types.NewPointer(v.typ)}
@@ -222,8 +222,29 @@ func (e *evalEnv) fromAddr(t types.Type, ref, off string) tv {
 		return tv{typ: t, isAddr: true, ref: ref, off: off}
 	}
 	term := sel(e.st.H[kindOf(t)], ref, off)
-	// heap well-formedness of the loaded value (Go memory safety; DESIGN 4.2) -- only for closed terms
+	e.assumeLoadedWF(t, term)
+	return tv{term: term, typ: t, ref: ref, off: off}
+}
+
+// assumeLoadedWF: heap well-formedness of a value loaded from the heap (Go memory safety; DESIGN 4.2) -- only for closed terms
+func (e *evalEnv) assumeLoadedWF(t types.Type, term string) {
 	if e.nquant == 0 && e.st.Next != "" {
+		if bits, signed, ok := intBits(t); ok && !signed && bits <= 16 {
+			// small unsigned fields (flags, ports, codes): their range is needed after a havoc of the object
+			rf := rangeFact(t, term)
+			key := "rf:" + term
+			if e.a != nil {
+				key += "@" + e.a.curReach
+			}
+			if !e.g.specUsed[key] {
+				e.g.specUsed[key] = true
+				reach := "true"
+				if e.a != nil && e.a.curReach != "" {
+					reach = e.a.curReach
+				}
+				e.g.assumeIf(reach, rf)
+			}
+		}
 		if wf := e.g.heapValWF(t, term, e.st); wf != "" {
 			key := "wf:" + term + "@" + e.st.Next
 			if e.a != nil {
@@ -239,7 +260,6 @@ func (e *evalEnv) fromAddr(t types.Type, ref, off string) tv {
 			}
 		}
 	}
-	return tv{term: term, typ: t}
 }
 
 func (e *evalEnv) ident(x *ast.Ident) tv {
@@ -586,6 +606,7 @@ func (e *evalEnv) index(x *ast.IndexExpr) tv {
 		}
 		key := e.a.mapKey(t.Key(), idx.term)
 		k := "M" + kindOf(t.Elem())
+		e.assumeLoadedWF(t.Elem(), sel(e.st.H[k], b.term, key))
 		return tv{term: fmt.Sprintf("(ite %s %s %s)", sel(e.st.H["MD"], b.term, key), sel(e.st.H[k], b.term, key), e.g.zero(t.Elem())), typ: t.Elem()}
 	case *types.Pointer:
 		if at, ok := t.Elem().Underlying().(*types.Array); ok {
